@@ -88,7 +88,8 @@ Record rop := { ro_fid : N; ro_type : optype; ro_payload : N; ro_read_index : N;
 
 (* &votesRecieved / &numResponses: one shared counter per call of
    sendRequestVoteToPeers / sendAppendEntriesToPeers. *)
-Record round := { r_id : N; r_count : N; r_stamp : N (* operationManager.rounds when the round was started *) }.
+Record round := { r_id : N; r_count : N; r_stamp : N (* operationManager.rounds when the round was started *);
+                  r_term : N (* currentTerm when the round was started *) }.
 
 (* goroutines spawned by `go r.send...` that have not yet taken the lock *)
 Inductive task :=
